@@ -55,8 +55,8 @@ def run(pid, tier):
                        'generations': r.get('generations', -1), 'maxGenerations': max_gen, 'initMax': 4})
         ft = os.path.join(d, 'trace-%d.ndjson' % max_gen)
         common.write_ndjson(ft, tg)
-        open(os.path.join(common.SPEC, 'TraceSolver_run.cfg'), 'w').write(open(os.path.join(common.SPEC, 'TraceSolver.cfg')).read().replace('MaxGen = 3', 'MaxGen = %d' % max_gen))
-        tv = common.tlc('TraceSolver', cfg='TraceSolver_run.cfg', env={'RUNS': ft}, workers=1, name=pid + '-trace', timeout=3000, deque=True, xmx='8g')
+        open(os.path.join(common.SPEC, 'TraceSolver_run_%s.cfg' % pid), 'w').write(open(os.path.join(common.SPEC, 'TraceSolver.cfg')).read().replace('MaxGen = 3', 'MaxGen = %d' % max_gen))
+        tv = common.tlc('TraceSolver', cfg='TraceSolver_run_%s.cfg' % pid, env={'RUNS': ft}, workers=1, name=pid + '-trace', timeout=3000, deque=True, xmx='8g')
         if not tv.distinct:
             raise ToolError('TraceSolver did not run for maxGenerations=%d: see work/tlc-%s-trace.log' % (max_gen, pid))
         tv_states += tv.distinct; tv_trans += tv.generated
@@ -80,8 +80,8 @@ def run(pid, tier):
         bad[1]['events'][k]['e'] = 't'
         fb = os.path.join(d, 'trace-corrupt.ndjson')
         common.write_ndjson(fb, bad)
-        open(os.path.join(common.SPEC, 'TraceSolver_run.cfg'), 'w').write(open(os.path.join(common.SPEC, 'TraceSolver.cfg')).read().replace('MaxGen = 3', 'MaxGen = %d' % bad[0]['maxGenerations']))
-        cv = common.tlc('TraceSolver', cfg='TraceSolver_run.cfg', env={'RUNS': fb}, workers=1, name=pid + '-corrupt', timeout=600, deque=True)
+        open(os.path.join(common.SPEC, 'TraceSolver_run_%s.cfg' % pid), 'w').write(open(os.path.join(common.SPEC, 'TraceSolver.cfg')).read().replace('MaxGen = 3', 'MaxGen = %d' % bad[0]['maxGenerations']))
+        cv = common.tlc('TraceSolver', cfg='TraceSolver_run_%s.cfg' % pid, env={'RUNS': fb}, workers=1, name=pid + '-corrupt', timeout=600, deque=True)
         if 'TRACE-REJECTED run 2' not in cv.out:
             raise ToolError('trace spec vacuity: a corrupted event was accepted')
     # 4. returned solutions satisfy C01-C03 (VrpModel oracle)
